@@ -172,6 +172,17 @@ CHECKS["C20"] = {
     "level_text": "the step-count contract is checked for every k up to the bound and both signs of two perturbation sizes, i.e. on exactly the inputs where floor(duration/dt) can go either way",
 }
 
+CHECKS["C17"] = {
+    "engine": "E1 lattice explorer",
+    "jobs": lambda tier: [job("C17.cpp", "C17")],
+    "rule": "unit = one exponent of the mantissa/exponent lattice (tau = +-m 2^e, T = m 2^e, 16 four-bit mantissas, e in [-60,19], capped at 1e6) or one block of 8192 CONSECUTIVE doubles around a critical point (tau around 0 incl. denormals and both signs, +-1, +-1e6; T around 1, 1e-6, 1e6); at every point: toTime > 0 and equal to the closed form (1e-14), toTime(tau) <= toTime(next double), toTime(tau + 16 ulp) > toTime(tau), backward = g T'(tau) (1e-14) and linear in g, toTau(toTime tau) = tau and toTime(toTau T) = T (1e-12), toTau monotone; one-sided derivatives and difference quotients at the switch; identity map bitwise; non-trivial = every unit",
+    "bounds": {"quick": "2560 lattice points + 2^17 consecutive doubles around each of 8 critical points", "thorough": "2560 lattice points + 2^21 consecutive doubles around each of 8 critical points"},
+    "thresholds": {"closed form / backward": 1e-14, "round trips": 1e-12, "monotone": "exact between adjacent doubles; strict at 16 ulp"},
+    "assumptions": ASSUME_COMMON,
+    "technique": "bounded exhaustive enumeration of a floating-point input lattice incl. all consecutive doubles around the branch points, on the real code",
+    "level_text": "every floating-point number in the stated neighbourhoods of the switch points and a 4-bit-mantissa lattice over |tau| <= 1e6, T in [1e-6,1e6] is evaluated",
+}
+
 NOT_APPLICABLE = {}
 
 ENGINES = [
